@@ -287,6 +287,8 @@ _add(Entry('slice', G_BYTES, {'parser': 'lalr'}, _prod(LX), input_kind='slice',
 _add(Entry('rx', G_RX, {'parser': 'lalr', 'regex': True}, {'ctx': {'lexer': 'contextual'}},
            samples={'W': ['Ab', 'Éa'], 'P': ['()', '(a(b)c)']},
            texts=["Ab (x(y)z) Éa", "Ab (x(y z", "ab", "Zz()(())"]))
+_add(Entry('lexonly', G_SCAN, {'parser': None, 'lexer': 'basic'}, {'': {}}, lalr=False,
+           texts=['let x = f(1, "a b") # c\n noise', 'f( 1 , 2 )', 'zzz 123 ,,, let a = "q', 'a   b # x']))
 # Earley / CYK entries (not LALR: no interactive sessions, no scan, no save)
 _add(Entry('eam', G_AMB, {'parser': 'earley'},
            _prod({'basic': {'lexer': 'basic'}, 'dyn': {'lexer': 'dynamic'}, 'dync': {'lexer': 'dynamic_complete'}},
